@@ -116,7 +116,7 @@ func genEpisode(seed uint64, e int, thorough bool) *Episode {
 	// one episode in five is a long private-key workload: a few goroutines, each
 	// driving its own XMSS object (same height) through many signatures and
 	// jumps, so that state shared between distinct key objects gets used
-	longPriv := r.Chance(0.2)
+	longPriv := r.Chance(0.15)
 	if longPriv {
 		n = r.Range(2, 3)
 		enabled = []string{"psign", "psign", "psign", "psign", "pset", "pset", "pget", "xverify"}
@@ -125,7 +125,7 @@ func genEpisode(seed uint64, e int, thorough bool) *Episode {
 		var calls []Call
 		nc := r.Range(2, 7)
 		if longPriv {
-			nc = r.Range(8, 16)
+			nc = r.Range(8, 14)
 		}
 		pidx := 0
 		leaves := 1 << privHeight(t)
@@ -355,6 +355,10 @@ func genPlan(r *core.Rand, ep *Episode, st *Sites, counts [][]uint32, total uint
 	case 2: // round-robin with a quantum
 		p.Strategy = "quantum"
 		p.Quantum = []uint64{1, 3, 10, 100, 1000, 100000}[r.Intn(6)]
+		// a hand-off costs about a microsecond: keep their number per run bounded
+		for total/p.Quantum > 3000000 {
+			p.Quantum *= 10
+		}
 	case 3: // whole calls in random order
 		p.Strategy = "call-shuffle"
 		for t, calls := range ep.Tasks {
